@@ -422,6 +422,7 @@ func lemmaViewMergeAssociative(a, b, c *ClusterView) (left, right *ClusterView) 
 // decoded counter is within the representable range the lattice operations assume
 //@ func ReadVersionVector
 //@   allocbound 65535
+//@   callspec NewVersionVectorWithCapacity requires 0 <= arg0 && arg0 <= 65535
 //@   requires r != nil && messages.rwf(r)
 //@   modifies r.pos, r.err
 //@   ensures messages.rwf(r)
